@@ -66,6 +66,24 @@ Theorem C18_empty : forall w, f_mode (w_file w) <> FRead ->
     w_size w' = w_size w /\ w_chunk w' = w_chunk w /\ f_mode (w_file w') = f_mode (w_file w).
 Proof. exact empty_appends. Qed.
 
+(** The receiving side under every history: for every sequence of [add] / [empty] / [fill] calls on a
+    created file, the bytes written followed by the pieces still buffered are exactly what was there
+    before followed by the accepted pieces in the order of their [add]s - a refused [add] (buffer
+    full) contributes nothing, nothing is lost, nothing is written twice, nothing else is written. *)
+Theorem C18_adds_are_stored_in_order : forall ops w, WInv w -> f_mode (w_file w) = FWrite -> no_remove ops ->
+  stored_then_buffered (fst (wrun w ops)) = stored_then_buffered w ++ concat (add_pieces w ops).
+Proof. exact adds_are_stored_in_order. Qed.
+Theorem C18_adds_then_empty_file : forall ops size chunk, size <= 65535 -> no_remove ops ->
+  let w := fst (wrun (window_new size chunk file_created) (ops ++ [OpEmpty])) in
+  w_elems w = [] /\ written_bytes (w_file w) = concat (add_pieces (window_new size chunk file_created) (ops ++ [OpEmpty])).
+Proof. exact adds_then_empty_file. Qed.
+Example C18_ex_refused_add_is_not_stored :
+  let w0 := window_new 2 5 file_created in
+  let ops := [OpAdd [1]; OpAdd [2; 3]; OpAdd [4]; OpFill; OpEmpty; OpAdd [5]] in
+  no_remove ops /\ add_pieces w0 ops = [[1]; [2; 3]; [5]] /\
+  stored_then_buffered (fst (wrun w0 ops)) = [1; 2; 3; 5] /\ w_elems (fst (wrun w0 ops)) = [[5]].
+Proof. split; [repeat constructor|]. split; [|split]; vm_compute; reflexivity. Qed.
+
 (** Non-vacuity: the two sequences of the repository's unit tests, and one beyond them. *)
 Example C18_ex_fill_remove_fill :
   let w0 := window_new 2 5 (file_for_read [72; 101; 108; 108; 111; 44; 32; 119; 111; 114; 108; 100; 33]) in
@@ -83,3 +101,5 @@ Print Assumptions C18_fills_hand_out_file_in_order.
 Print Assumptions C18_fill.
 Print Assumptions C18_remove.
 Print Assumptions C18_empty.
+Print Assumptions C18_adds_are_stored_in_order.
+Print Assumptions C18_adds_then_empty_file.
